@@ -122,6 +122,19 @@ def plan(tier, seed):
             cfgs.append(make_cfg(g, method, GP.PIPES[len(cfgs) % 4], "BOREHOLE", "cap-huge", True, 64))
     for k in range({"quick": 8, "thorough": 48}[tier]):
         cfgs.append(make_cfg(g, "BIRECTANGLE", GP.PIPES[k % 4], ["BOREHOLE", "SYSTEM"][k % 2], ["small", "interior", "small", "interior"][k % 4], k % 3 == 0, 36))
+    # boundary values of the temperature limits: an antifreeze loop with the lower limit at exactly 0 degC (float and int) or below it, and
+    # extraction-dominated loads so that the lower limit is the governing one
+    for k in range({"quick": 6, "thorough": 24}[tier]):
+        method = ["NEARSQUARE", "RECTANGLE", "BIRECTANGLE"][k % 3]
+        cfg = make_cfg(g, method, GP.PIPES[k % 4], ["BOREHOLE", "SYSTEM"][k % 2], ["interior", "small", "large"][k % 3], k % 4 == 3, 49)
+        cfg["fluid"] = {"fluid_name": ["PROPYLENEGLYCOL", "ETHYLENEGLYCOL", "METHYLALCOHOL"][k % 3], "concentration_percent": float(round(g.uniform(20, 35), 1)), "temperature": 20.0}
+        cfg["soil"]["undisturbed_temp"] = float(round(g.uniform(7.0, 12.0), 2))
+        cfg["design"]["min_eft"] = [0.0, 0, -2.0][k % 3]
+        cfg["design"]["max_eft"] = float(round(cfg["soil"]["undisturbed_temp"] + g.uniform(14, 24), 1))
+        cfg["loads_desc"]["family"] = ["heating_only", "sinus", "atlanta_shift"][k % 3]
+        cfg["loads_desc"]["scale"] = scale_loads_for(cfg, cfg["_class"], g)
+        cfg["_class"] = "limit-boundary"
+        cfgs.append(cfg)
     return cfgs
 
 
